@@ -17,6 +17,11 @@ Besides the C05 design lattice the bank lattice contains boundary banks: odd sam
 the default and the floor(rate/2) top edge, and triangular / Fbank banks with the top edge on every
 boundary the constructors know (floor(rate/2), rate/2, rate/2 + 0.5, rate/2 + 1).
 
+`supports_threshold` repeats the sweep on banks built after the documented package constant
+EFFECTIVE_SUPPORT_THRESHOLD was lowered (1e-4) or raised (2e-3), every bound taken from the value in force;
+`threshold_history` builds a bank and reads its supports under one value, changes the constant and checks
+the SAME object again against the new value.
+
 Every (bank, filter, width) case is evaluated on a bank object of its own (impulse response, then
 frequency response), exactly as its replay does.  `history` explores call histories on ONE
 object (engine in c05.py): every sequence of 2 / 3 calls over {get_impulse_response,
